@@ -18,9 +18,11 @@ import proofs
 from common import hx, unhx
 
 GROUP = "velocity"
-FILES = ["gen/Gen_velocity.v", "gen/Gen_velocity_utils.v", "Model_pathlines.v", "Proofs_velocity.v",
-         "Proofs_pathlines.v", "Model_pathline_session.v", "Proofs_pathline_session.v", "Entry_velocity.v",
-         "Extract_velocity.v"]
+FILES = ["gen/Gen_velocity.v", "gen/Gen_velocity_utils.v", "gen/Gen_pathlines.v", "Model_pathlines.v", "Proofs_velocity.v",
+         "Proofs_pathlines.v", "Inst_pathlines.v", "Proofs_pathline_gen.v", "Model_pathline_session.v",
+         "Proofs_pathline_session.v", "Entry_velocity.v", "Extract_velocity.v"]
+GEN_MODULES = ("velocity", "pathlines")
+METHODS = ("RK45", "RK23", "DOP853", "Radau", "BDF", "LSODA")      # ordinals used by the generated request vector
 PROP = "Properties/C18.v"
 FINDING_FILES = {"shear": "Findings/C18_shear.v", "cell": "Findings/C18_cell.v"}
 LETTERS = "XYZ"
@@ -214,6 +216,9 @@ def compare_inside(chk, rng, tier):
     cases.append(("is_inside", np.zeros(3), -np.ones(3), np.ones(2), 2))     # size mismatch -> AssertionError
     lines.append(common.model_line("is_inside", [3, 2], [0, 0, 0, -1, -1, -1, 1, 1]))
     mres = common.run_model(lines, group=GROUP)
+    # the same cases through the code GENERATED from pathlines.py (sizes 3, 3, 3 only)
+    glines = [common.model_line("gen_is_inside", [], list(pt) + list(mn) + list(mx)) for (_, pt, mn, mx, n2) in cases if n2 == 3]
+    gres = iter(common.run_model(glines, group=GROUP))
     for (_, pt, mn, mx, n2), m in zip(cases, mres):
         try:
             r = ("OK", [1.0 if P._is_inside(pt, mn, mx) else 0.0])
@@ -222,6 +227,10 @@ def compare_inside(chk, rng, tier):
         chk.note_case(("is_inside", pt.tobytes(), mn.tobytes(), mx.tobytes()), nontrivial=True)
         if (r[0], r[1]) != (m[0], m[1]):
             bad.append((("is_inside", pt, mn, mx), f"_is_inside: implementation {r} vs model {m}"))
+        if n2 == 3:
+            g = next(gres)
+            if (r[0], r[1]) != (g[0], g[1]):
+                bad.append((("is_inside", pt, mn, mx), f"_is_inside: implementation {r} vs generated code {g}"))
     # _ivp_func with the cell flow
     lines, cases = [], []
     for k in range(n // 2):
@@ -233,16 +242,26 @@ def compare_inside(chk, rng, tier):
         cases.append((h, v, amp, d, pt, mn, mx))
         lines.append(common.model_line("ivp_func", [1, h, v], list(pt) + list(mn) + list(mx) + [amp, d]))
     mres = common.run_model(lines, group=GROUP)
-    for (h, v, amp, d, pt, mn, mx), m in zip(cases, mres):
+    gfun = common.run_model([ln.replace("ivp_func ", "gen_ivp 0 ", 1) for ln in lines], group=GROUP)
+    gjac = common.run_model([ln.replace("ivp_func ", "gen_ivp 1 ", 1) for ln in lines], group=GROUP)
+    for (h, v, amp, d, pt, mn, mx), m, gf, gj in zip(cases, mres, gfun, gjac):
         u, L = make_flow(1, LETTERS[h], LETTERS[v], [amp, d])
         try:
             r = ("OK", [float(a) for a in P._ivp_func(0.0, pt, u, L, mn, mx)])
         except Exception as e:  # noqa: BLE001
             r = ("ERR", common.exc_code(e))
+        try:
+            rj = ("OK", [float(a) for a in np.asarray(P._ivp_jac(0.0, pt, u, L, mn, mx)).reshape(-1)])
+        except Exception as e:  # noqa: BLE001
+            rj = ("ERR", common.exc_code(e))
         chk.note_case(("ivp_func", pt.tobytes(), d, amp, h, v), nontrivial=r[0] == "OK" and any(r[1]))
-        ok = r[0] == m[0] and (r[1] == m[1] if r[0] == "ERR" else common.vec_close(r[1], m[1], rtol=1e-11, atol=1e-13 * amp)[0])
-        if not ok:
-            bad.append((("ivp_func", pt, mn, mx), f"_ivp_func: implementation {r} vs model {m}"))
+        chk.note_case(("ivp_jac", pt.tobytes(), d, amp, h, v), nontrivial=rj[0] == "OK" and any(rj[1]))
+        for what, rr, mm in (("_ivp_func: implementation vs model", r, m), ("_ivp_func: implementation vs generated code", r, gf),
+                             ("_ivp_jac: implementation vs generated code", rj, gj)):
+            ok = rr[0] == mm[0] and (rr[1] == mm[1] if rr[0] == "ERR" else
+                                     common.vec_close(rr[1], mm[1], rtol=1e-11, atol=1e-13 * amp * max(1.0, math.pi / d))[0])
+            if not ok:
+                bad.append((("ivp_func", pt, mn, mx), f"{what}: {rr} vs {mm}"))
     return bad
 
 
@@ -303,11 +322,23 @@ def run_pathline(spec, callables=None, raw_args=None, module=None):
     flow, hl, vl, ps, mn, mx, p, ms, steps = spec
     u, L = callables if callables is not None else make_flow(flow, hl, vl, ps)
     a_p, a_mn, a_mx, a_ms = raw_args if raw_args is not None else (p.copy(), mn.copy(), mx.copy(), ms)
-    rec = {"calls": [], "t": None, "status": None, "exc": None}
+    rec = {"calls": [], "t": None, "status": None, "exc": None, "request": None}
     real = P.si.solve_ivp
 
     def recording(fun, t_span, y0, **kw):
         ev = kw["events"][0]
+        # what get_pathline asks solve_ivp for, in the layout of the generated request vector (k_request_n3)
+        try:
+            other = set(kw) - {"method", "events", "args", "dense_output", "jac", "atol", "rtol", "first_step", "max_step"}
+            a = kw.get("args", ())
+            rec["request"] = ([float(t_span[0]), float(t_span[1]), float(len(t_span))] + [float(v) for v in np.asarray(y0, dtype=float)]
+                              + [float(kw.get("atol", 1e-6)), float(kw.get("rtol", 1e-3)), float(METHODS.index(kw.get("method", "RK45"))),
+                                 float(len(kw["events"])), float(bool(getattr(ev, "terminal", False))), float(getattr(ev, "direction", 0)),
+                                 float(kw.get("dense_output", False) is True), float(fun is P._ivp_func), float(kw.get("jac") is P._ivp_jac),
+                                 float(isinstance(a, tuple) and len(a) == 4 and a[0] is u and a[1] is L and a[2] is a_mn and a[3] is a_mx),
+                                 float(kw.get("first_step", 0.0)), float(kw.get("max_step", 0.0)), float(len(other))])
+        except Exception as e:  # noqa: BLE001
+            rec["request"] = f"{type(e).__name__}: {e}"
 
         def ev2(t, y, *a):
             val = ev(t, y, *a)
@@ -364,7 +395,8 @@ def check_pathline(chk, spec, rec, stats):
             inside = bool(np.all(y >= mn) and np.all(y <= mx))
             e = rate_at(L, y) if inside else 0.0
             xs += [t] + list(y) + [e]
-        m = common.run_model([common.model_line("event", [flow, ordl(hl), ordl(vl), len(ps), len(calls)], xs)], group=GROUP)[0]
+        m, g = common.run_model([common.model_line(e, [flow, ordl(hl), ordl(vl), len(ps), len(calls)], xs) for e in ("event", "gen_event")],
+                                group=GROUP)
         stats["event_calls"] += len(calls)
         if m[0] != "OK":
             fails.append(f"terminal event: model raises {m[1]} on the recorded call history")
@@ -372,6 +404,20 @@ def check_pathline(chk, spec, rec, stats):
             okc, j = common.vec_close([c[2] for c in calls], m[1], rtol=1e-9, atol=1e-12 * ms)
             if not okc:
                 fails.append(f"terminal event call {j}: implementation returned {calls[j][2]!r}, model {m[1][j]!r}")
+        # ... and through the closure GENERATED from the source (state threaded from call to call, initial
+        # state read off the generated request)
+        if g[0] != "OK":
+            fails.append(f"terminal event: generated closure raises {g[1]} on the recorded call history")
+        else:
+            okc, j = common.vec_close([c[2] for c in calls], g[1][:-2], rtol=1e-9, atol=1e-12 * ms)
+            if not okc:
+                fails.append(f"terminal event call {j}: implementation returned {calls[j][2]!r}, generated closure {g[1][j]!r}")
+    if rec.get("request") is not None and have_model:
+        g = common.run_model([common.model_line("gen_request", [], list(p) + list(mn) + list(mx) + [ms])], group=GROUP)[0]
+        stats["requests_compared"] = stats.get("requests_compared", 0) + 1
+        rq = rec["request"]
+        if isinstance(rq, str) or g[0] != "OK" or not common.vec_close(rq, g[1][:len(rq)], rtol=0.0, atol=0.0)[0]:
+            fails.append(f"solve_ivp was called with {rq}, the request generated from the source is {g[1] if g[0] == 'OK' else g}")
         # how often is the event evaluated at non-monotone times (the root finder jumps)?
         tt = [c[0] for c in calls]
         stats["event_forward_jumps"] += sum(1 for a, b in zip(tt, tt[1:]) if b > a)
@@ -1079,9 +1125,23 @@ def witness_cell():
     return abs(G[2, 2] + math.pi / 2) < 1e-12 and abs(duz_dz) < 1e-6 and abs(np.trace(G) + math.pi / 2) < 1e-12
 
 
+def build_findings():
+    """Findings/C18_*.v are machine-checked refutations of the full statement for the two defective flows: they are
+    EXPECTED to stop compiling when a defect is repaired, so they are not among the obligations of `prove`; they are
+    built here (same Makefile, under the build lock) and the outcome is reported in the KNOWN-FINDING line."""
+    out = {}
+    with common.Lock():
+        for k, f in FINDING_FILES.items():
+            rc, _ = common.sh(f"cd {common.COQ} && timeout 600 make {f[:-2]}.vo", timeout=700)
+            out[k] = rc == 0
+    return out
+
+
 def run(chk):
     quiet()
-    ok, br = proofs.prove(chk, FILES, PROP, groups=(GROUP,), gen_modules=("velocity",))
+    ok, br = proofs.prove(chk, FILES, PROP, groups=(GROUP,), gen_modules=GEN_MODULES)
+    refuted = build_findings()
+    chk.cov["findings_refutations_compile"] = refuted
     rng = np.random.default_rng(chk.seed)
     chk.cov["trusted_base"] = common.TRUSTED_COMMON + [
         "VelProxy / UtilsProxy in translator/specs_velocity.py: np.full, a statically non-zero np.pi, and the replacement of "
@@ -1167,11 +1227,11 @@ def run(chk):
         findings[KF_SHEAR] = ("simple_shear_2d: the gradient callable returns 2*strain_rate in entry [direction, plane] while the velocity "
                               "callable has d u/d x = strain_rate there (L = 2 x Jacobian; pinned by the doctest) -- witness simple_shear_2d('X','Z',1): "
                               "L[0,2] = 2, u([0,0,1])[0] - u(0)[0] = 1; Coq: Findings/C18_shear.v "
-                              + ("(compiles)" if FINDING_FILES["shear"] in br.built_vo else "(DOES NOT COMPILE)"))
+                              + ("(compiles)" if refuted["shear"] else "(DOES NOT COMPILE)"))
     if witness_cell():
         findings[KF_CELL] = ("cell_2d: gradient entries [v,h] and [v,v] are exchanged relative to the Jacobian of the velocity callable, trace = "
                              "-U*pi/d*cos(pi(h-v)/d) != 0 (pinned by the doctest) -- witness cell_2d('X','Z',1)(0,0,0): L[2,2] = -pi/2, d u_z/d z = 0; "
-                             "Coq: Findings/C18_cell.v " + ("(compiles)" if FINDING_FILES["cell"] in br.built_vo else "(DOES NOT COMPILE)"))
+                             "Coq: Findings/C18_cell.v " + ("(compiles)" if refuted["cell"] else "(DOES NOT COMPILE)"))
     if any(s is WITNESS_PATH for s in known_path_points):
         others = [s for s in known_path_points if s is not WITNESS_PATH]
         findings[KF_PATH] = ("get_pathline raises ValueError('f(a) and f(b) must have different signs') -- the terminal event is stateful "
